@@ -73,10 +73,14 @@ def main(argv=None):
     seed = a.seed if a.seed is not None else int(os.environ.get("VERIF_SEED") or "1")
     prop = registry.load(a.prop)
     if a.replay:
+        if getattr(prop, "ROTATE_TZ", False):
+            core.set_process_tz(0)
         return do_replay(prop, a.replay)
 
     t0 = time.time()
     ctx = Ctx(prop.ID, a.tier, seed)
+    if getattr(prop, "ROTATE_TZ", False):
+        ctx.extra["process_time_zones"] = "shard k runs under %s[k mod 5]; replays and enumerated parts under %s" % (core.TZ_ROTATION, core.set_process_tz(0))
     findings = load_findings(prop.ID)
     prop.KNOWN = {e["id"]: e for e in findings if e.get("status") == "known"}
     violations = []  # (bucket, spec, msg, shard_seed or None)
